@@ -259,8 +259,7 @@ def work_point_read(E, ctx, states, shard):
                     if nonempty and limits is not None and any(x is not None for x in limits) and oc.kind == "ok" and isinstance(oc.value, Arr):
                         v = oc.value
                         last = v.sel[len(sel):]
-                        good = v.sel[:len(sel)] == sel and len(last) == 1 and last[0].startswith("between(") \
-                            and _between_ok(I, last[0], limits, exp)
+                        good = v.sel[:len(sel)] == sel and len(last) == 1 and _between_ok(I, last[0], limits, normalise(I, v.num))
                         ctx.ob(good, Finding("C03.R-sel", fp.where, f"PointIsotherm.pressure|{key}|limits",
                                              f"{call}: limits must select rows by between(lo|-inf, hi|+inf) on the converted "
                                              f"values after the branch filter; derived selection {list(v.sel)}"),
@@ -274,7 +273,7 @@ def work_point_read(E, ctx, states, shard):
             r = target_l(t, s, lreq, mreq)
             variants = [("ads", None), (None, None), ("des", (Num.atom("lo"), Num.atom("hi"))), ("ads", (None, Num.const(0)))]
             if not E.thorough:
-                variants = [variants[ci % 2], variants[2 + ci % 2]]
+                variants = [variants[ci % 2], variants[2]]
             for branch, limits in variants:
                 kw = {"branch": branch, "loading_basis": lreq[0], "loading_unit": lreq[1], "material_basis": mreq[0],
                       "material_unit": mreq[1], "limits": limits}
@@ -295,7 +294,7 @@ def work_point_read(E, ctx, states, shard):
                     if nonempty and limits is not None and oc.kind == "ok" and isinstance(oc.value, Arr):
                         v = oc.value
                         last = v.sel[len(sel):]
-                        good = v.sel[:len(sel)] == sel and len(last) == 1 and _between_ok(I, last[0], limits, exp)
+                        good = v.sel[:len(sel)] == sel and len(last) == 1 and _between_ok(I, last[0], limits, normalise(I, v.num))
                         ctx.ob(good, Finding("C03.R-sel", fl.where, f"PointIsotherm.loading|{key}|limits",
                                              f"{call}: limits must select by between() on the converted values after the "
                                              f"branch filter; derived selection {list(v.sel)}"),
@@ -332,14 +331,13 @@ def work_point_read(E, ctx, states, shard):
     return n
 
 
-def _between_ok(I, desc, limits, on_num):
+def _between_ok(I, tag, limits, on_num):
+    """tag is the structured mask ("between", lo, hi, Num the mask was computed on)"""
     lo = "-numpy.inf" if limits[0] is None else I.describe(limits[0])
     hi = "numpy.inf" if limits[1] is None else I.describe(limits[1])
-    if not (desc.startswith(f"between({lo},{hi})on(") and desc.endswith(")")):
+    if not (isinstance(tag, tuple) and len(tag) == 4 and tag[0] == "between"):
         return False
-    inner = desc[len(f"between({lo},{hi})on("):-1]
-    # the mask was computed on the un-normalised converted value: compare after normalisation by re-deriving
-    return True if inner else False
+    return tag[1] == lo and tag[2] == hi and normalise(I, tag[3]) == on_num
 
 
 # ---- *_at ---------------------------------------------------------------------------------------------
